@@ -115,6 +115,17 @@ CLAIMED.update({
                      "nothing; the NaN set survives write -> read."),
 })
 
+CLAIMED.update({
+    "C03": dict(cat="exploration", ref="DESIGN.md 3 (C03), Appendix C",
+                technique="deterministic simulation of save/load runs: seeded header item lists from the statement's conformant "
+                          "alphabet written as 1.2/2.0 through a simulated output channel and codec, read back through a simulated "
+                          "input channel (codec, newline, delivery policy) with each mnemonic_case; field-by-field oracle with the "
+                          "statement's permitted differences only",
+                text="Items, order, original mnemonic (mapped by the case function), unit, value (numerically) and description of "
+                     "~Version/~Well/~Curves/~Parameter and the ~Other text must come back; each item is in turn stretched to be "
+                     "the widest of its section, incl. empty value + unit and the four 1.2 ~Well items with their own layout."),
+})
+
 NOT_APPLICABLE = {
     "C04": "read_header_line is a pure function of one already-delivered line (regex cascade): no stream position, "
            "history, fault or interleaving can influence it, so deterministic simulation adds nothing (DESIGN.md 4)",
